@@ -159,20 +159,26 @@ func TestWireChild(t *testing.T) {
 	}
 	var ts []target
 	ce := newConsEnv(ft, 4, 1, -1, 1)
+	defer ce.close()
 	ts = append(ts, target{"consensus", ce.conR, ce.sw, consensus.DataChannel})
 	for _, v := range []string{"v0", "v1"} {
 		mcfg := cfg.DefaultMempoolConfig()
 		mcfg.Version = v
 		me := newMempoolEnv(ft, v, mcfg)
+		defer me.close()
 		ts = append(ts, target{"mempool-" + v, me.r, me.sw, 0x30})
 	}
 	ee, _, _ := newEvidenceEnv(ft, 2)
+	defer ee.close()
 	ts = append(ts, target{"evidence", ee.r, ee.sw, 0x38})
 	be, _ := newBlockchainEnv(ft, 2, false)
+	defer be.close()
 	ts = append(ts, target{"blockchain", be.r, be.sw, 0x40})
 	se, _, _ := newStatesyncEnv(ft)
+	defer se.close()
 	ts = append(ts, target{"statesync", se.r, se.sw, 0x60})
 	pe, _, _ := newPexEnv(ft, false, true)
+	defer pe.close()
 	ts = append(ts, target{"pex", pe.r, pe.sw, 0x00})
 
 	for _, tg := range ts {
